@@ -1158,11 +1158,37 @@ macro "fsimp" : tactic =>
       Nat.reduceEqDiff, Nat.succ_ne_self, Bool.or_eq_true, Bool.and_eq_true, decide_eq_true_eq, Bool.not_eq_true',
       decide_eq_false_iff_not, Bool.true_eq_false, Bool.false_eq_true, decide_true, decide_false, Nat.add_zero, Nat.le_refl,
       Nat.sub_self, List.replicate_zero, List.append_nil, List.nil_append, and_true, true_and, Nat.lt_irrefl, false_or, or_false,
-      true_or, or_true, Option.ite_none_right_eq_some, Option.some.injEq, *])
+      true_or, or_true, Option.ite_none_right_eq_some, Option.some.injEq, Option.isSome_some, Option.isSome_none, *])
 
 /-- one statement forward: the statement succeeds, the next state is computed -/
 macro "fstep" : tactic =>
   `(tactic| (apply wp_step
-             focus (fsimp; first | done | rfl | (apply And.intro; (first | assumption | omega | (simp [*]; done)); rfl))))
+             focus (fsimp; first | done | rfl | (refine And.intro ?_ ?_; (first | assumption | omega | simp [*]); rfl))))
+
+theorem map_ite_some_none {α β : Type} (f : α → β) (c : Prop) [Decidable c] (x : α) (y : β) :
+    (Option.map f (if c then some x else none) = some y) ↔ c ∧ f x = y := by
+  by_cases h : c <;> simp [h]
+
+set_option hygiene false in
+/-- one statement backward: from `h : runS (op :: ops) A = some B` to the condition under which `op` succeeds (kept as a
+hypothesis), the next state substituted, and `h : runS ops A' = some B` -/
+macro "bstep" : tactic =>
+  `(tactic| (have h' := runS_cons_inv h
+             clear h
+             obtain ⟨A1, h1, h⟩ := h'
+             simp only [Op.runS, SEnv.setS, SEnv.setT, upd, NE.evalS, Cond.evalS, SE.eval, getArgsS, Rule.shape, bcastAll_single,
+               bcastAll_pair, Option.map_some, Option.bind_some, List.getElem?_cons_zero, List.getElem?_cons_succ,
+               List.set_cons_zero, List.set_cons_succ, List.length_cons, List.length_nil, bcastR_nil_right, bcastR_self,
+               bcastR_append_self, Expands, List.all_cons, List.all_nil, beq_self_eq_true, Bool.and_self, Bool.and_true, if_true,
+               if_false, reduceIte, reduceCtorEq, Nat.reduceEqDiff, Nat.succ_ne_self, Bool.or_eq_true, Bool.and_eq_true,
+               decide_eq_true_eq, Bool.not_eq_true', decide_eq_false_iff_not, Bool.true_eq_false, Bool.false_eq_true,
+               decide_true, decide_false, Nat.add_zero, Nat.le_refl, Nat.sub_self, List.replicate_zero, List.append_nil,
+               List.nil_append, and_true, true_and, Nat.lt_irrefl, false_or, or_false, true_or, or_true,
+               Option.ite_none_right_eq_some, Option.some.injEq, Option.isSome_some, Option.isSome_none,
+               Option.map_eq_some_iff, map_ite_some_none, beq_iff_eq, *] at h1
+             first
+               | subst h1
+               | (obtain ⟨hc, h1⟩ := h1; subst h1)
+               | (obtain ⟨a, ha, h1⟩ := h1; subst h1)))
 
 end FShapes
